@@ -323,7 +323,7 @@ class Explorer(object):
             c = self.port.module_consts(self.modname).get(e.id, NOT_HANDLED) if hasattr(self.port, 'module_consts') else NOT_HANDLED
             if c is not NOT_HANDLED:
                 return c
-            if e.id in ('len', 'iter', 'str', 'int', 'bool', 'list', 'tuple', 'isinstance', 'range', 'enumerate', 'min', 'max', 'any', 'all', 'type', 'set', 'Set'):
+            if e.id in ('len', 'iter', 'str', 'int', 'bool', 'list', 'tuple', 'isinstance', 'range', 'enumerate', 'min', 'max', 'any', 'all', 'type', 'set', 'Set', 'sorted', 'sum'):
                 return ('builtin', e.id)
             raise Undecided('name {} unknown in abstract exploration'.format(e.id), e)
         if isinstance(e, (ast.List, ast.Tuple)):
@@ -554,6 +554,12 @@ class Explorer(object):
                 ast.copy_location(fake, node)
                 ast.fix_missing_locations(fake)
                 return LazyIter(lambda: self.call(fake, {'__recv__': recv}), args[1])
+        if name in ('min', 'max') and args:
+            seq = list(args[0]) if len(args) == 1 and isinstance(args[0], (list, tuple)) else list(args)
+            if seq and all(isinstance(x, (int, float)) and not isinstance(x, bool) for x in seq):
+                return min(seq) if name == 'min' else max(seq)
+        if name in ('sorted', 'sum') and len(args) == 1 and isinstance(args[0], (list, tuple)) and all(isinstance(x, (int, float)) and not isinstance(x, bool) for x in args[0]):
+            return sorted(args[0]) if name == 'sorted' else sum(args[0])
         if name == 'type' and len(args) == 1 and isinstance(args[0], Abs) and 'cls' in args[0].props:
             return ('class', args[0].props['cls'])
         if name == 'isinstance' and len(args) == 2 and isinstance(args[1], tuple) and args[1] and args[1][0] == 'class':
